@@ -109,7 +109,7 @@ TreeField(R, G, objType, obj, fs, path) ==
 
 \* R0 = [schema, doc, vars, root, gate]; the root position <<>> is an object whose failure nulls the whole response
 TreeOf(R0) ==
-  LET cv == CoerceVars(R0.doc.vardefs, R0.vars, <<>>)
+  LET cv == CoerceVars(R0.schema, R0.doc.vardefs, R0.vars, <<>>)
       R == [schema |-> R0.schema, doc |-> R0.doc, vals |-> cv.vals, noIncr |-> FALSE,
             wd |-> {R0.doc.vardefs[k].name : k \in {j \in 1..Len(R0.doc.vardefs) : R0.doc.vardefs[j].hasDefault}}]
       rt == R0.schema.query
